@@ -200,6 +200,17 @@ def b_getattr(I, args, kw, node):
         raise
 
 
+def b_setattr(I, args, kw, node):
+    o, n, v = args
+    if not isinstance(n, str):
+        raise SymError("setattr with a symbolic attribute name")
+    if isinstance(o, SObj):
+        I.note_write(o, n)
+        o.f[n] = v
+        return None
+    raise SymError("setattr on %s" % type(o).__name__)
+
+
 def b_repr(I, args, kw, node):
     return "<repr>"
 
@@ -230,7 +241,7 @@ FUNCS = {}
 BUILTINS = {
     len: b_len, min: b_min, max: b_max, abs: b_abs, sum: b_sum, isinstance: b_isinstance,
     divmod: b_divmod, ord: b_ord, chr: b_chr, any: b_any, all: b_all, sorted: b_sorted,
-    hasattr: b_hasattr, getattr: b_getattr, repr: b_repr, round: b_round, id: b_id,
+    hasattr: b_hasattr, getattr: b_getattr, setattr: b_setattr, repr: b_repr, round: b_round, id: b_id,
     iter: b_iter, next: b_next, math.floor: b_floor, math.ceil: b_ceil, callable: b_callable,
 }
 
